@@ -6,6 +6,6 @@ PROP = dict(
          'the Lean model; distinct = by hash of (op, observation); non-trivial = an allocation that returned a frame or a free',
     trusted=['reserveRegionFn/mapFn are scripted (vmm is covered by C04/C07)', 'multiboot block built by the harness (decoder covered by C10)'],
     assumptions=['memory map sorted, non-overlapping, addr+len < 2^64, fewer than 2^32 frames', 'kernel image page-aligned start, inside one available region'],
-    level_text='TODO',
-    level_note='TODO',
+    level_text='Lean theorems: every early allocation from a state reached by successful allocations returns a frame wholly inside an available region, outside the kernel image, strictly above the previous one (boot_sound, boot_strictly_ascending), OOM returns no frame (boot_oom_is_safe), replay from the reset state reproduces the frames (replay_exact), for every sorted map and kernel placement. Differential run of the real BootMemAllocator to exhaustion + replay on generated maps.',
+    level_note='Trusted: Lean kernel (+ 3 standard axioms), statements, harness; addresses as Nat (addr+len < 2^64 assumed); multiboot decoding covered by C10.',
 )
